@@ -50,32 +50,35 @@ type Clause struct {
 }
 
 type Contract struct {
-	Key      string
-	Callback bool
-	Params   []string
-	Results  []string
-	Requires []*Clause
-	Ensures  []*Clause
-	Panics   []*Clause
-	Covers   []*Clause
-	Modifies []string
-	HasMod   bool
-	LoopInv  map[int][]*Clause
-	LoopDec  map[int]*Clause
-	LoopMod  map[int][]string
-	Trusted  string
-	Pure     bool
-	Dep      bool // from a dependency spec file
-	File     string
-	Line     int
-	Ghosts   []string // ghost statements: "name = expr" executed at exit (unused for now)
-	Uses     []string // callback contracts: caller variables visible to the contract
-	Interf   []string // locations other goroutines may change while the call blocks (lock acquisition)
-	Sites    map[string][]*SiteAnn
-	Assumed  []string    // free-text assumptions made by this contract (listed in evidence)
-	NoNilFn  bool        // function values called in the body are assumed non-nil (recorded in Assumed)
-	NoFrame  bool        // the modifies clause is used at call sites but not checked against the body
-	Given    []GhostDecl // scenario contracts (key "func@name"): universally quantified scenario variables
+	Key       string
+	Callback  bool
+	Params    []string
+	Results   []string
+	Requires  []*Clause
+	Ensures   []*Clause
+	Panics    []*Clause
+	Covers    []*Clause
+	Modifies  []string
+	HasMod    bool
+	LoopInv   map[int][]*Clause
+	LoopDec   map[int]*Clause
+	LoopMod   map[int][]string
+	Trusted   string
+	Pure      bool
+	Dep       bool // from a dependency spec file
+	File      string
+	Line      int
+	Ghosts    []string // ghost statements: "name = expr" executed at exit (unused for now)
+	Uses      []string // callback contracts: caller variables visible to the contract
+	Interf    []string // locations other goroutines may change while the call blocks (lock acquisition)
+	Sites     map[string][]*SiteAnn
+	Assumed   []string    // free-text assumptions made by this contract (listed in evidence)
+	NoNilFn   bool        // function values called in the body are assumed non-nil (recorded in Assumed)
+	NoFrame   bool        // the modifies clause is used at call sites but not checked against the body
+	ChecksPub bool        // element writes are checked against the publication typestate (functions that fill the shared caches)
+	NoSafety  bool        // the zero-annotation no-panic sweep is not run for this function (recorded in Assumed)
+	Immutable []string    // parameters (receivers) whose fields the body must not write (C15)
+	Given     []GhostDecl // scenario contracts (key "func@name"): universally quantified scenario variables
 }
 
 // SiteAnn is an annotation attached to the k-th call (source order) whose callee expression reads Text.
@@ -134,6 +137,7 @@ type SpecSet struct {
 	Defines   map[string]*Define
 	UFuns     map[string]*UFun
 	Guarded   map[string]string // heap key "T.f" -> mutex field name
+	OnceGuard map[string]string // heap key "T.f" -> sync.Once field name
 	Trans     map[string]*Transition
 }
 
@@ -260,6 +264,18 @@ func (ss *SpecSet) parseFile(path string, dep bool) error {
 			}
 			ss.UFuns[name] = &UFun{Name: name, Args: args, Ret: ret}
 			cur = nil
+		case "onceguarded":
+			i := strings.LastIndex(rest, " by ")
+			if i < 0 {
+				return fmt.Errorf("%s:%d: onceguarded <fields> by <once field>", path, ln+1)
+			}
+			if ss.OnceGuard == nil {
+				ss.OnceGuard = map[string]string{}
+			}
+			for _, f := range splitLocs(rest[:i]) {
+				ss.OnceGuard[f] = strings.TrimSpace(rest[i+4:])
+			}
+			cur = nil
 		case "guarded":
 			// guarded T.failed, T.cleanups by mu
 			i := strings.LastIndex(rest, " by ")
@@ -347,6 +363,13 @@ func (ss *SpecSet) parseFile(path string, dep bool) error {
 				cur.Params = splitLocs(rest)
 			case "uses":
 				cur.Uses = splitLocs(rest)
+			case "checks-publication":
+				cur.ChecksPub = true
+			case "nosafety":
+				cur.NoSafety = true
+				cur.Assumed = append(cur.Assumed, "no-panic sweep (bounds, type assertions, make sizes) not run for "+cur.Key+": "+strings.Trim(rest, `"`))
+			case "immutable":
+				cur.Immutable = append(cur.Immutable, splitLocs(rest)...)
 			case "given":
 				f := strings.SplitN(rest, " ", 2)
 				if len(f) != 2 {
